@@ -54,7 +54,7 @@ def run(pid, tier, args):
             g.pop("inputs", None)
             g["structure"] = True
         # hand-written Go types (anonymous / embedded structs): structure-independent clauses only
-        for sid in ("static-embedded", "static-anon-two", "static-anon-rec", "static-alias"):
+        for sid in ("static-embedded", "static-anon-two", "static-anon-rec", "static-alias", "static-unicode-names"):
             gs.append({"id": sid, "structure": False, "root": "", "prods": [], "unions": {}})
         src = os.path.join(wd, "harness-src")
         codegen.emit([g for g in gs if g["structure"]], os.path.join(src, "gengram", "gen.go"))
